@@ -345,6 +345,18 @@ func c12BdRun(fs []string) string {
 		hello := []byte{'h', 'i', byte('0' + i)}
 		op := start("hello", func() string { _, err := st.Write(hello); return c12BdErr(err) })
 		c12BdQuiesce(self)
+		// the set-up is not the subject of the scenario: nothing is held yet, so the hello must go through;
+		// give a loaded machine time before calling it blocked
+		for t := 0; t < 200; t++ {
+			op.mu.Lock()
+			dn := op.done
+			op.mu.Unlock()
+			if dn {
+				break
+			}
+			time.Sleep(time.Millisecond)
+			c12BdQuiesce(self)
+		}
 		if !op.done {
 			return fs[0] + " setup-blocked"
 		}
